@@ -274,8 +274,18 @@ let query (p : pool) toks : string =
        | Some e ->
            let rho = sort_valuation (take_pairs (int_of_string n) r (fun h b -> (name_of_hex h, b = "1"))) in
            if d = "-" then
-             Printf.sprintf "checked=%s s.checked=%s py.exc=%s" (show_checked (obj_eval_checked e.e_obj rho)) (spec_checked e.e_spec rho)
-               (match py_eval_checked e.e_obj rho with Inr x -> exc_name x | Inl _ -> "none")
+             (* for an expression whose declared inputs the specification only bounds (results of conversions, xor,
+                normal forms, substitution: `exact` above) the set of inputs that checked evaluation may report is not
+                determined by the specification: only the model's own answer is printed (and `*` when even the
+                model's structure is not determined: expressions out of diagrams) *)
+             let is_e = (match e.e_obj with OE _ -> true | _ -> false) in
+             let ex = (not is_e) || (match List.nth_opt !exact (int_of_string i) with Some true -> true | _ -> false) in
+             if ex then
+               Printf.sprintf "checked=%s s.checked=%s py.exc=%s" (show_checked (obj_eval_checked e.e_obj rho)) (spec_checked e.e_spec rho)
+                 (match py_eval_checked e.e_obj rho with Inr x -> exc_name x | Inl _ -> "none")
+             else if e.e_opaque then "checked=*"
+             else Printf.sprintf "checked=%s py.exc=%s" (show_checked (obj_eval_checked e.e_obj rho))
+                 (match py_eval_checked e.e_obj rho with Inr x -> exc_name x | Inl _ -> "none")
            else
              let dv = (d = "1") in
              let sv = e.e_spec.fn (fun x -> match List.assoc_opt x rho with Some b -> b | None -> dv) in
